@@ -247,13 +247,14 @@ Module T_tie_char_classes. Import Tie. Local Open Scope bool_scope. Local Open S
 Local Open Scope Z_scope.
 Theorem C01_tie_char_classes :
   same_class LexModel.isws Generated.gen_cc_isws = true /\ same_class LexModel.isbdigit Generated.gen_cc_isbdigit = true /\
-  same_class LexModel.isqdigit Generated.gen_cc_isqdigit = true /\ same_class LexModel.isplusmn Generated.gen_cc_isplusmn = true /\
+  same_class LexModel.isqdigit Generated.gen_cc_isqdigit = true /\ same_class LexModel.isxdigit Generated.gen_cc_isxdigit = true /\
   same_class LexModel.isH Generated.gen_cc_isH = true /\ same_class LexModel.isB Generated.gen_cc_isB = true /\
   same_class LexModel.isQ Generated.gen_cc_isQ = true /\ same_class LexModel.isE Generated.gen_cc_isE = true /\
-  same_class LexModel.isascii7 Generated.gen_cc_isascii7 = true /\ same_class LexModel.isexpr Generated.gen_cc_isexpr = true /\
+  same_class LexModel.isplusmn Generated.gen_cc_isplusmn = true /\ same_class LexModel.isdigit Generated.gen_cc_isdigit = true /\
   same_class (fun c => LexModel.isdigit c && negb (LexModel.ischr 48%N c)) Generated.gen_cc_isnzdigit = true /\
-  same_class LexModel.isdigit Generated.gen_cc_isdigit = true /\ same_class LexModel.isalpha Generated.gen_cc_isalpha = true /\
-  same_class LexModel.isalnum Generated.gen_cc_isalnum = true /\ same_class LexModel.isxdigit Generated.gen_cc_isxdigit = true.
+  same_class LexModel.isalpha Generated.gen_cc_isalpha = true /\ same_class LexModel.ismnem Generated.gen_cc_ismnem = true /\
+  same_class (fun c => LexModel.isascii7 c && negb (LexModel.ischr 39%N c)) Generated.gen_cc_isascii7 = true /\
+  same_class LexModel.isexpr Generated.gen_cc_isexpr = true.
 Proof. exact (@Tie.tie_char_classes). Qed.
 End T_tie_char_classes.
 Definition C01_tie_char_classes := @T_tie_char_classes.C01_tie_char_classes.
